@@ -47,7 +47,9 @@ def _strategy(draw):
     if "files" in kinds:
         t["split"] = draw(st.sampled_from(["links_apart", "one_per_block", "reverse"]))
     if "history" in kinds:
-        t["history"] = [draw(gp.case(max_res=4, link_bias=True)) for _ in range(draw(st.integers(0, 2)))]
+        # unrelated earlier runs, half of them with links that remove atoms
+        t["history"] = [draw(gp.case(max_res=4, link_bias=True, removal_bias=draw(st.booleans())))
+                        for _ in range(draw(st.integers(0, 2)))]
         # runs with the *same* force-field files but another residue graph (state kept per definition
         # set, e.g. a cache, only leaks between such runs)
         names = [b["name"] for b in spec["blocks"]]
